@@ -1,6 +1,17 @@
 HOOK_COMMITS = []
 NOT_APPLICABLE = {}
 TEXTS = {
+    "C01": {
+        "text": "Lean 4 theorem C01_format_partial: for every byte string, configuration, parser behaviour and every wrapper behaviour "
+                "satisfying the frame contract, the output has the same non-blank characters in the same order as the input up to ASCII "
+                "case; proved through exact models of lexer, content rules, pipeline glue and reconstructor (for every counter "
+                "assignment). Model tied to the code by per-stage differential execution; contract clauses evaluated on every case.",
+        "design_ref": "DESIGN.md section 5 (C01)",
+        "note": "Assumes (checked per case by the driver): WrapFrame (wrapper changes only blanks inside contents and keeps the token "
+                "vector) and 'no dangling E3 byte in token contents' (follows from valid UTF-8 once lex_char_boundaries is proved). "
+                "Parser and wrapper are universally quantified, not modelled. Trusted: Lean kernel, translator, harness.",
+        "technique": "Lean 4 proof over executable model + differential correspondence + per-case contract evaluation",
+    },
     "C13": {
         "text": "Machine-checked Lean 4 theorems on an exact model of the lexer: losslessness, single last end-of-file token, blank-only "
                 "leading whitespace, non-blank token starts, AVX2 identifier routine = scalar routine for every input, keyword lookup = "
